@@ -111,4 +111,57 @@ ITEMS = [
     dict(src=SR, path='impl YamlSerializer/fn write_plain_or_quoted_value', props=['C12', 'C01'],
          ensures=[('C12:a_value_is_written_raw_only_if_it_reads_back_as_itself_else_quoted', WRITES % 'old(self).in_flow > 0')],
          canaries=['C12:a_value_is_written_raw_only_if_it_reads_back_as_itself_else_quoted']),
+    # ---- folding of long single lines (C20 / C12: a fold replaces exactly one space of a run by the line break) ----
+    dict(src='src/wrapping.rs', path='fn write_folded_block', props=['C20', 'C12', 'C01'],
+         pre_rewrites=[(r'pub fn write_folded_block<W: Write>\(\s*out: &mut W,', 'fn write_folded_block(\n    out: &mut Sink,', 1, 'R9'),
+                       (r'indent_buf\.reserve\(spaces\);', '', 1, 'R36')],
+         loop_rewrites=[(1, 'range'), (2, 'split_lf'), (3, 'char_indices'), (4, 'range')],
+         rewrites=[(r"indent_buf\.push\(' '\);", "string_push(&mut indent_buf, ' ');", 1, 'R8'),
+                   (r'line\.is_empty\(\)', 'str_is_empty(line)', 1, 'R8'),
+                   (r"line\.starts_with\(' '\)", "pl_str_starts_with_char(line, ' ')", 1, 'R8'),
+                   (r'&line\[start\.\.ws_start\]', 'str_slice(line, start, ws_start)', 1, 'R8'),
+                   (r'&line\[start\.\.\]', 'str_slice(line, start, str_len(line))', 1, 'R8')],
+         requires=[('indent_fits', 'indent_step * indent <= usize::MAX')],
+         proofs=[
+            dict(after='let mut start = 0usize;', ghost=True, text='''let ghost cs = line@; let ghost mut ks: int = 0; let ghost mut la: int = 0; let ghost mut lb: int = 0; let ghost mut ra: int = 0;
+                 let ghost mut u: Seq<char> = Seq::<char>::empty();'''),
+            dict(after='let mut start = 0usize;', text='''axiom_str_len_bounded(line); lemma_char_off_ends(cs); lemma_char_offs_are_boundaries(cs);
+                 assert(cs.subrange(0, 0) =~= Seq::<char>::empty());
+                 assert(cs.len() > 0 && cs[0] != ' ') by { lemma_first_char_not_space(line); }'''),
+            dict(after_re=r'let \(i, ch\) = __v3\[__i3\]; __i3 \+= 1;', text='let k = __i3 - 1; lemma_char_off_step(cs, k); if k > 0 { lemma_char_off_step(cs, k - 1); } lemma_char_off_monotonic(cs, k + 1, cs.len() as int); lemma_char_off_ends(cs); lemma_char_offs_are_boundaries(cs); assert(i == char_off(cs, k) && ch == cs[k]);'),
+            dict(after='last_space_run = Some((run_start, run_end, run_len));', text='la = ra; lb = __i3 - 1;'),
+            dict(after='run_start = i;', text='ra = __i3 - 1;'),
+            dict(before='out.write_str(str_slice(line, start, ws_start))?;', label='C20:a_line_is_broken_only_at_a_run_of_spaces_after_a_non_empty_piece_and_the_next_piece_starts_with_a_non_space',
+                 text='''assert(ks < la && la < lb && lb < cs.len() && all_spaces(cs, la, lb) && cs[lb] != ' ' && ws_len == lb - la
+                        && ws_start == char_off(cs, la) && ws_end == char_off(cs, lb) && start == char_off(cs, ks));
+                      lemma_char_off_monotonic(cs, ks, la);'''),
+            dict(before='out.write_str(str_slice(line, start, ws_start))?;', ghost=True, text='let ghost t_piece = out.text();'),
+            dict(after_re=r'\bstart = ws_\w+;', label='C20:a_fold_swallows_exactly_one_space_of_the_run',
+                 text='''lemma_fold_piece(cs, ks, la, lb);
+                      assert(out.text() =~= t_piece + cs.subrange(ks, la) + fold_spaces(lb - la - 1) + seq!['\\n']);
+                      u = u + cs.subrange(ks, la) + fold_spaces(lb - la - 1) + seq![' '];
+                      assert(u =~= cs.subrange(0, lb));
+                      ks = lb;'''),
+            dict(before_re=r'out\.write_str\(str_slice\(line, start, str_len\(line\)\)\)\?;', label='C20:the_pieces_joined_by_single_spaces_are_the_original_line',
+                 text='lemma_char_off_ends(cs); lemma_char_offs_are_boundaries(cs); lemma_char_off_monotonic(cs, ks, cs.len() as int); assert(u + cs.subrange(ks, cs.len() as int) =~= cs);'),
+         ],
+         loops={
+            1: dict(invariant=[('indent_is_spaces', '__i1 <= __n1 && __n1 == spaces')], decreases='__n1 - __i1'),
+            2: dict(invariant=[('lines', '__i2 <= __v2@.len()')], decreases='__v2@.len() - __i2'),
+            3: dict(invariant_except_break=[
+                    ('chars', '''cs == line@ && __v3@.len() == cs.len() && __i3 <= __v3@.len() && cs.len() <= isize::MAX
+                        && (forall|j: int| 0 <= j < __v3@.len() ==> (#[trigger] __v3@[j]).0 == char_off(cs, j) && __v3@[j].1 == cs[j])'''),
+                    ('piece_start', '0 <= ks <= __i3 && start == char_off(cs, ks) && (ks < cs.len() ==> cs[ks] != \' \') && u =~= cs.subrange(0, ks) && col <= __i3'),
+                    ('last_completed_run', '''last_space_run is Some ==> ({ let (rs, re, rl) = last_space_run->Some_0;
+                        ks < la && la < lb && lb <= __i3 && lb < cs.len() && rs == char_off(cs, la) && re == char_off(cs, lb) && rl == lb - la && all_spaces(cs, la, lb) && cs[lb] != ' ' })'''),
+                    ('run_in_progress', '''in_space_run ==> ks < ra && ra < __i3 && run_start == char_off(cs, ra) && run_len == __i3 - ra && all_spaces(cs, ra, __i3 as int)
+                        && (last_space_run is Some ==> lb <= ra)'''),
+                    ('not_in_a_run', '!in_space_run && __i3 > 0 && __i3 > ks ==> cs[__i3 - 1] != \' \''),
+                    ('previous_char', '__i3 > 0 ==> prev_i == char_off(cs, __i3 - 1) && prev_ch_len == encode_scalar(cs[__i3 - 1] as u32).len()'),
+                 ],
+                 invariant=[('piece_start_kept', '0 <= ks <= cs.len() && start == char_off(cs, ks) && u =~= cs.subrange(0, ks) && cs == line@')],
+                 decreases='__v3@.len() - __i3'),
+            4: dict(invariant=[('trailing_spaces', '__i4 <= __n4 && out.text() =~= t_piece + cs.subrange(ks, la) + fold_spaces(__i4 as int)'),
+                               ], decreases='__n4 - __i4'),
+         }),
 ]
